@@ -196,6 +196,27 @@ fn explore(ctx: &Ctx) -> Outcome {
     layers.push(json!({"family": "structure grid prefix|filler|copy(m,d)|tail", "inputs": grid_n, "completed": true}));
     layers.push(json!({"family": "header boundary lengths", "inputs": rest.len() - grid_n, "completed": true}));
     total.absorb(t);
+    #[allow(non_snake_case)]
+    let SKIP_IN_PROCESS = |x: &[u8]| unsafe_inputs.iter().any(|u| u.as_slice() == x);
+    // call histories: compress(x) then compress(y) on the same thread (state carried from one
+    // call to the next — a reused buffer, a cache — would corrupt the second result)
+    {
+        let mut hist_inputs: Vec<Vec<u8>> = vec![vec![], vec![1], vec![0; 8], (0..8).collect(), (0..9).collect(), vec![7; 300], vec![7; 5000], lzfam::norepeat(40, 3), (0..64).map(|i| (i % 3) as u8).collect()];
+        hist_inputs.retain(|x| !SKIP_IN_PROCESS(x));
+        let mut t = Tally::new();
+        for x in &hist_inputs {
+            for y in &hist_inputs {
+                let _ = util::catch(|| (LZ13CompressionFormat {}).compress(x));
+                t.cases += 1;
+                t.calls += 1;
+                if let Some((sig, summary)) = judge(y, &mut t) {
+                    t.violate(format!("after-previous-call:{}", sig), format!("compress of a {}-byte input right after compressing a {}-byte input: {}", y.len(), x.len(), summary), json!({"history": [util::hex(x), util::hex(y)]}));
+                }
+            }
+        }
+        layers.push(json!({"family": "call histories: all ordered pairs of 9 inputs on one thread", "pairs": hist_inputs.len() * hist_inputs.len(), "completed": true}));
+        total.absorb(t);
+    }
     total.sample(json!({"input_hex": "", "note": "the empty input (run in a subprocess)"}));
     total.sample(case_json(&rest[0].data[..rest[0].data.len().min(64)], &rest[0].desc));
 
@@ -230,6 +251,16 @@ fn explore(ctx: &Ctx) -> Outcome {
 fn replay(ctx: &Ctx, case: &Value) -> Vec<Violation> {
     if case["truncated"].as_bool().unwrap_or(false) {
         return vec![];
+    }
+    if let Some(h) = case["history"].as_array() {
+        let x = util::unhex(h[0].as_str().unwrap_or(""));
+        let y = util::unhex(h[1].as_str().unwrap_or(""));
+        let _ = util::catch(|| (LZ13CompressionFormat {}).compress(&x));
+        let mut t = Tally::new();
+        return match judge(&y, &mut t) {
+            Some((sig, summary)) => vec![Violation { sig: format!("after-previous-call:{}", sig), summary, case: case.clone() }],
+            None => vec![],
+        };
     }
     let data = util::unhex(case["hex"].as_str().unwrap_or(""));
     if case["isolated"].as_bool().unwrap_or(false) {
